@@ -7,6 +7,7 @@ and to the source; d3 equals d2 (a second round changes nothing); the exported t
 on the iteration order of the underlying sets.  Shipped domain files are round-tripped too."""
 import glob
 import json
+from fractions import Fraction
 import os
 
 from pv import ctx, sched
@@ -25,7 +26,7 @@ ID = "C08"
 RULE = ("fragment-F domains with numeric constants on the exporter's grid (2 decimals in conditions, 4 in effects) and "
         "every domain file shipped under tests/ that the library parses; export repeated under permuted iteration "
         "orders of operand and effect sets.  Non-trivial = the domain contains a negative literal, (in)equality, "
-        "nested group, when, forall or a non-integer constant (generated), or is a shipped file.  Distinct by source text.")
+        "nested group, when, forall or a non-integer constant (generated), or is a shipped file.  Read-backs that differ structurally are judged on the probes plus states placed on either side of every numeric comparison's boundary.  Distinct by source text.")
 ASSUMPTIONS = ["numeric conditions in nested / when / forall positions are of the shape (cmp fterm const|fterm), which the "
                "simplifier used when printing them maps to itself (richer shapes: finding K5)",
                "shipped files are compared first parse versus second parse (no independent reading of the files)"]
@@ -37,9 +38,30 @@ F_K5 = "K5-nested-conditions-through-simplifier"
 def rich_numeric_in_groups(dom):
     """A numeric condition other than (cmp fterm number|fterm), with distinct sides, inside a nested and/or/forall
     group or a when condition: such conditions are printed through the simplifier (known finding K5)."""
+    def mono(e):
+        """(fluent, exact product of the constants) for a fluent multiplied by constants, else None."""
+        if isinstance(e, str):
+            return None
+        if e[0] not in pddl.NUM_OPS:
+            return tuple(e), Fraction(1)
+        if e[0] != "*" or len(e) != 3:
+            return None
+        a, b = e[1], e[2]
+        if isinstance(a, str) and pddl.is_number(a):
+            a, b = b, a
+        if not (isinstance(b, str) and pddl.is_number(b)):
+            return None
+        m = mono(a)
+        return None if m is None else (m[0], m[1] * Fraction(b))
+
     def simple(c):
-        return isinstance(c[1], list) and c[1][0] not in pddl.NUM_OPS and \
-            (isinstance(c[2], str) or c[2][0] not in pddl.NUM_OPS) and c[1] != c[2]
+        if isinstance(c[1], list) and c[1][0] not in pddl.NUM_OPS and \
+                (isinstance(c[2], str) or c[2][0] not in pddl.NUM_OPS) and c[1] != c[2]:
+            return True
+        # simplifier-stable as well: two monomials over different fluents whose coefficients have <= 2 decimals
+        m1, m2 = mono(c[1]), mono(c[2])
+        return m1 is not None and m2 is not None and m1[0] != m2[0] and m1[1] != 0 and m2[1] != 0 and \
+            (m1[1] * 100).denominator == 1 and (m2[1] * 100).denominator == 1
 
     def scan(c, inside):
         if not c:
@@ -130,6 +152,16 @@ def check_case(case):
     dom, objects = case["dom"], case["objects"]
     pddl.validate_domain(dom, objects)
     pddl.validate_probes(dom, objects, case["probes"])
+    for a in dom["actions"]:
+        for f, digits in [(a.get("pre") or [], 2)] + [(w, 2) for w in S.when_conditions(a["eff"])]:
+            for x in pddl.walk(f):
+                if any(isinstance(tk, str) and pddl.is_number(tk) and (Fraction(tk) * 10 ** digits).denominator != 1 for tk in x):
+                    raise pddl.Invalid("a condition's constant is off the exporter's grid (2 decimals)")
+        for x in pddl.walk(a["eff"]):
+            if x and x[0] in pddl.ASSIGN_OPS and len(x) == 3:
+                for y in pddl.walk(x[2]) if isinstance(x[2], list) else [[x[2]]]:
+                    if any(isinstance(tk, str) and pddl.is_number(tk) and (Fraction(tk) * 10 ** 4).denominator != 1 for tk in y):
+                        raise pddl.Invalid("an effect's constant is off the exporter's grid (4 decimals)")
     if rich_numeric_in_groups(dom) and ctx.active(F_K5):
         res.known.append(F_K5)          # excluded by construction, counted; the committed reproducer exercises it
         res.skipped = "K5-trigger"
@@ -284,7 +316,7 @@ def chunk_cases(tier, chunk):
 
 
 def gen(ch, tier):
-    ft = G.feats(max_actions=2, division=False, rich_when_numeric=False, rich_nested_numeric=False)
+    ft = G.feats(max_actions=2, division=False, rich_when_numeric=False, rich_nested_numeric=False, p_long_number=0.1, long_decimals=2, long_decimals_eff=4, nested_monomials=True)
     case = S.gen_sem_case(ch, tier, ft, n_probes=3)
     case["via_file"] = ch.flag(0.3)
     return case
